@@ -266,15 +266,25 @@ Arguments RFence {stmt}.
 Definition role_is_code {stmt} (r : role stmt) : bool :=
   match r with RStmt _ | RCmt | RCont | RProseWs => true | _ => false end.
 
+(* blanks at the end of a tag: the code keeps them (see the finding class below), a reader does not see them *)
+Fixpoint rtrim (s : string) : string :=
+  match s with
+  | EmptyString => EmptyString
+  | String c r => if all_blank s then EmptyString else String c (rtrim r)
+  end.
+Definition keep_tag (t : string) : string := t.
+
 Section Exec.
   Context {stmt : Type}.
   Notation line := (string * role stmt)%type.
+  (* how a tag is read before it is classified: [keep_tag] = what the code does, [rtrim] = without the blanks at its end *)
+  Variable norm : string -> string.
 
   Definition item_of_line (l : line) : list (item stmt) :=
     match snd l with RStmt a => [Stmt a] | RCmt => [Cmt (fst l)] | _ => [] end.
   Definition items_of_lines (ls : list line) : list (item stmt) := flat_map item_of_line ls.
 
-  Definition fence_kind (f : fence (role stmt)) : tagkind := classify_tag (tag_of_raw (f_raw f)).
+  Definition fence_kind (f : fence (role stmt)) : tagkind := classify_tag (norm (tag_of_raw (f_raw f))).
   Definition body_text (f : fence (role stmt)) : string :=
     String.concat "" (map (fun l => fst l ++ nl) (f_body f)) ++ f_pre f.
 
@@ -366,6 +376,7 @@ Definition fences_only (l : list sblock) : list sblock := filter (fun b => negb 
 Section Summary.
   Context {stmt : Type}.
   Notation line := (string * role stmt)%type.
+  Variable norm : string -> string.
 
   Definition kinds_of_lines (ls : list line) : list ikind :=
     flat_map (fun l : line => match snd l with RStmt _ => [IStmt] | RCmt => [ICmt] | _ => [] end) ls.
@@ -374,7 +385,7 @@ Section Summary.
     match run with [] => out | _ => SMc (List.rev run) :: out end.
 
   Definition sblock_of_fence (f : fence (role stmt)) : list sblock :=
-    match fence_kind f with
+    match fence_kind norm f with
     | TUnnamed => [SFm "" false false false (kinds_of_lines (f_body f))]
     | THidden => [SFm "" false false true (kinds_of_lines (f_body f))]
     | TDisabled => [SFm "" false true false (kinds_of_lines (f_body f))]
@@ -423,13 +434,16 @@ Fixpoint decode_sblocks (l : list sx) : list sblock :=
 
 (* ------------------------------------------------------------------------ the judge instance *)
 (* a line of a case: (s|c|k|p|e|b|f "<indentation>" "<text>" [fails]) ; the line is indentation ++ text *)
-Inductive jrole : Type := JStmt (fails : bool) | JCmt | JCont | JProse | JProseWs | JBlank | JFence.
+(* a statement carries two flags "the generator made this one fail": under the code's reading of the tags and under the
+   reading without the blanks at their end (they differ only inside the class fence-info-trailing-blank) *)
+Inductive jrole : Type := JStmt (fails failsT : bool) | JCmt | JCont | JProse | JProseWs | JBlank | JFence.
 Record jline : Type := JL { j_ind : string; j_text : string; j_role : jrole }.
 Definition j_full (l : jline) : string := j_ind l ++ j_text l.
 
 Definition decode_jline (x : sx) : option jline :=
   match x with
-  | Lx [Ax "s"; Qx i; Qx t; Zx f] => Some (JL i t (JStmt (negb (Z.eqb f 0))))
+  | Lx [Ax "s"; Qx i; Qx t; Zx f] => Some (JL i t (JStmt (negb (Z.eqb f 0)) (negb (Z.eqb f 0))))
+  | Lx [Ax "s"; Qx i; Qx t; Zx f; Zx fT] => Some (JL i t (JStmt (negb (Z.eqb f 0)) (negb (Z.eqb fT 0))))
   | Lx [Ax "c"; Qx i; Qx t] => Some (JL i t JCmt)
   | Lx [Ax "k"; Qx i; Qx t] => Some (JL i t JCont)
   | Lx [Ax "p"; Qx i; Qx t] => Some (JL i t JProse)
@@ -441,14 +455,14 @@ Definition decode_jline (x : sx) : option jline :=
 
 (* the text of a statement = its first line (without the indentation) and its continuation lines;
    second component: the continuation text that the lines in front of the current position still have to pick up *)
-Fixpoint prep_go (ls : list jline) : list (string * role jstmt) * string :=
+Fixpoint prep_go (trim : bool) (ls : list jline) : list (string * role jstmt) * string :=
   match ls with
   | [] => ([], "")
   | l :: r =>
-      let '(pr, suf) := prep_go r in
+      let '(pr, suf) := prep_go trim r in
       match j_role l with
       | JCont => ((j_full l, RCont) :: pr, nl ++ j_full l ++ suf)
-      | JStmt f => ((j_full l, RStmt (j_text l ++ suf, f)) :: pr, "")
+      | JStmt f fT => ((j_full l, RStmt (j_text l ++ suf, if trim then fT else f)) :: pr, "")
       | JCmt => ((j_full l, RCmt) :: pr, "")
       | JProse => ((j_full l, RProse) :: pr, "")
       | JProseWs => ((j_full l, RProseWs) :: pr, "")
@@ -456,7 +470,8 @@ Fixpoint prep_go (ls : list jline) : list (string * role jstmt) * string :=
       | JFence => ((j_full l, RFence) :: pr, "")
       end
   end.
-Definition prep (ls : list jline) : list (string * role jstmt) := fst (prep_go ls).
+Definition prep_sel (trim : bool) (ls : list jline) : list (string * role jstmt) := fst (prep_go trim ls).
+Definition prep (ls : list jline) : list (string * role jstmt) := prep_sel false ls.
 
 Definition unlines (ls : list jline) : string := String.concat "" (map (fun l => j_full l ++ nl) ls).
 
@@ -472,11 +487,11 @@ Fixpoint all_printable (s : string) : bool :=
 Definition line_is_codeish (l : string * role jstmt) : bool :=
   match snd l with RStmt _ | RCmt | RCont | RBlank => true | _ => false end.
 
-Definition fence_anomaly (f : fence (role jstmt)) : option string :=
+Definition fence_anomaly (norm : string -> string) (f : fence (role jstmt)) : option string :=
   if negb (all_blank (f_post f)) then Some "text-after-closing-sigil"
   else if has_brace (f_raw f) then Some "option-map"
   else if negb (all_printable (f_raw f)) then Some "non-ascii-info-string"
-  else match fence_kind f with
+  else match fence_kind norm f with
        | TEbnf => Some "ebnf-block"
        | TUnnamed | THidden | TNamed _ | TDisabled =>
            if negb (forallb line_is_codeish (f_body f)) || negb (all_blank (f_pre f)) then Some "non-code-line-in-mech-fence"
@@ -486,9 +501,9 @@ Definition fence_anomaly (f : fence (role jstmt)) : option string :=
        end.
 Fixpoint first_some {X} (l : list (option X)) : option X :=
   match l with [] => None | Some x :: _ => Some x | None :: r => first_some r end.
-Definition block_anomaly (b : block (role jstmt)) : option string :=
+Definition block_anomaly (norm : string -> string) (b : block (role jstmt)) : option string :=
   match b with
-  | BFence f => fence_anomaly f
+  | BFence f => fence_anomaly norm f
   | BLine l =>
       (* a sigil after blanks that were not consumed (after a paragraph, list, quote, break): how that line and the
          ones after it parse is outside the model *)
@@ -497,21 +512,16 @@ Definition block_anomaly (b : block (role jstmt)) : option string :=
       | None => match snd l with RFence => Some "fence-line-outside-fence" | _ => None end
       end
   end.
-Definition anomaly (ls : list (string * role jstmt)) (bs : list (block (role jstmt))) : option string :=
+Definition anomaly (norm : string -> string) (ls : list (string * role jstmt)) (bs : list (block (role jstmt))) : option string :=
   if existsb (fun l => has_newline (fst l)) ls then Some "newline-inside-line"
-  else first_some (map block_anomaly bs).
+  else first_some (map (block_anomaly norm) bs).
 Definition line_blocks_anomaly (bs : list (block (role jstmt))) : option string :=
-  first_some (map (fun b => match b with BLine _ => block_anomaly b | BFence _ => None end) bs).
+  first_some (map (fun b => match b with BLine _ => block_anomaly keep_tag b | BFence _ => None end) bs).
 
 (* ---- known-finding class `fence-info-trailing-blank` ----
    code_id keeps the blanks at its end (`text` contains space and tab): "```mech " is the namespace " " instead of the
    main program, "```mech:disabled " is executed (in a namespace called "disabled "), "```mech:a " and "```mech:a" are
    different namespaces.  The class: a fence whose tag classifies differently once the blanks at its end are removed. *)
-Fixpoint rtrim (s : string) : string :=
-  match s with
-  | EmptyString => EmptyString
-  | String c r => if all_blank s then EmptyString else String c (rtrim r)
-  end.
 Definition tagkind_eqb (a b : tagkind) : bool :=
   match a, b with
   | TUnnamed, TUnnamed | THidden, THidden | TDisabled, TDisabled | TEbnf, TEbnf | TInert, TInert | TPlain, TPlain => true
@@ -575,8 +585,37 @@ Definition show_sblock (b : sblock) : sx :=
   | SOther => Lx [Ax "other"]
   end.
 
-(* None = the observation does not belong to this case (internal error of the machinery).
-   [listed]: the ids of the open findings of this property (the driver refuses a `kf` verdict whose id is not listed) *)
+(* one reading of the tags.  None = the observations do not belong to this case (internal error of the machinery) *)
+Definition judge_variant (norm : string -> string) (stream : string) (pl : list (string * role jstmt))
+                         (bs : list (block (role jstmt))) (D : dobs) (got : list sblock)
+                         (rest : list (dobs * option (list sblock))) : option sx :=
+  match anomaly norm pl bs with
+  | Some a => Some (v_adv a)
+  | None =>
+      let d := elems_of norm bs in
+      if negb (forallb elem_ok d) then Some (v_adv "element-shape-outside-the-model") else
+      match rest with
+      | (M, _) :: rest' =>
+          match judge_algebra stream d D M (map fst rest') with
+          | None => None
+          | Some v =>
+              if negb (sx_eqb v (v_ok stream)) then Some v else
+              match blocks_check (summary norm bs) got with
+              | BFences => Some (v_bad "fence-structure-differs" (Lx (map show_sblock (summary norm bs))))
+              | BRuns =>
+                  if stream_binding stream then Some (v_bad "code-runs-differ" (Lx (map show_sblock (summary norm bs))))
+                  else Some (v_adv (stream ++ "-code-runs-differ"))
+              | BEq => Some v
+              end
+          end
+      | [] => None
+      end
+  end.
+
+(* [listed]: the ids of the open findings of this property (the driver refuses a `kf` verdict whose id is not listed).
+   Outside the class fence-info-trailing-blank there is one reading of the tags.  Inside it the observations are
+   D, then the code-only documents of the reading without the blanks (what the property expects: `ok` if they
+   match), then those of the reading of the code (if only they match: the known wrong behaviour) *)
 Definition judge_lines (stream : string) (listed : list string) (ls : list jline)
                        (os : list (dobs * option (list sblock))) : option sx :=
   match os with
@@ -592,32 +631,24 @@ Definition judge_lines (stream : string) (listed : list string) (ls : list jline
               else Some (v_bad "unclosed-fence-accepted" (Lx [Ax "perr"]))
           end
       | Closed bs =>
-          match anomaly pl bs with
-          | Some a => Some (v_adv a)
-          | None =>
-              let d := elems_of bs in
-              if negb (forallb elem_ok d) then Some (v_adv "element-shape-outside-the-model") else
-              match rest with
-              | (M, _) :: rest' =>
-                  match judge_algebra stream d D M (map fst rest') with
-                  | None => None
-                  | Some v =>
-                      if negb (sx_eqb v (v_ok stream)) then Some v else
-                      match blocks_check (summary bs) got with
-                      | BFences => Some (v_bad "fence-structure-differs" (Lx (map show_sblock (summary bs))))
-                      | BRuns =>
-                          if stream_binding stream then Some (v_bad "code-runs-differ" (Lx (map show_sblock (summary bs))))
-                          else Some (v_adv (stream ++ "-code-runs-differ"))
-                      | BEq =>
-                          if kf_trailing_blank bs then
-                            if mem "fence-info-trailing-blank" listed then Some (v_kf "fence-info-trailing-blank")
-                            else Some (v_adv "unlisted-finding-fence-info-trailing-blank")
-                          else Some v
-                      end
-                  end
-              | [] => None
-              end
-          end
+          if negb (kf_trailing_blank bs) then judge_variant keep_tag stream pl bs D got rest
+          else
+            let plT := prep_sel true ls in
+            match scan_doc plT with
+            | Unclosed _ _ _ _ _ => None
+            | Closed bsT =>
+            let n := Datatypes.S (2 * List.length (ns_names (elems_of rtrim bsT))) in
+            match judge_variant rtrim stream plT bsT D got (firstn n rest),
+                  judge_variant keep_tag stream pl bs D got (skipn n rest) with
+            | Some vS, Some vI =>
+                if sx_eqb vS (v_ok stream) then Some vS
+                else if sx_eqb vI (v_ok stream) then
+                  if mem "fence-info-trailing-blank" listed then Some (v_kf "fence-info-trailing-blank")
+                  else Some (v_adv "unlisted-finding-fence-info-trailing-blank")
+                else Some vS
+            | _, _ => None
+            end
+            end
       end
   | _ => None
   end.
